@@ -308,3 +308,41 @@ class Relabel:
 
     def assume(self, *a, **k):
         return None
+
+
+def descriptor_binding(ctx, rid: str, modules) -> None:
+    """Descriptor ``__get__``: the instance is a user object.  Whether the lookup came through the
+    class or through an instance is decided by identity with None only — a truth test or an
+    equality comparison would run the instance's ``__bool__`` / ``__len__`` / ``__eq__`` and treat a
+    falsy instance (an empty container with a cached method) like a lookup on the class."""
+    ctx.rule(rid, "__get__ decides 'looked up on the class' by `instance is None` only (never by truth value or equality)")
+    for mod in ctx.pkg.modules.values():
+        if mod.short not in modules:
+            continue
+        for info in mod.classes.values():
+            g = info.methods.get("__get__")
+            if g is None or len(g.param_names()) < 2:
+                continue
+            ctx.count("descriptors")
+            inst = g.param_names()[1]
+            bad = []
+
+            def bare(e):
+                return isinstance(e, ast.Name) and e.id == inst
+
+            for x in walk_own(g.node):
+                if isinstance(x, (ast.If, ast.While, ast.IfExp, ast.Assert)) and bare(x.test):
+                    bad.append(x.test)
+                elif isinstance(x, ast.UnaryOp) and isinstance(x.op, ast.Not) and bare(x.operand):
+                    bad.append(x)
+                elif isinstance(x, ast.BoolOp) and any(bare(v) for v in x.values):
+                    bad.append(x)
+                elif isinstance(x, ast.Compare) and any(bare(o) for o in [x.left] + list(x.comparators)) \
+                        and not all(isinstance(op, (ast.Is, ast.IsNot)) for op in x.ops):
+                    bad.append(x)
+                elif isinstance(x, ast.Call) and norm(x.func) in ("bool", "len") and any(bare(a) for a in x.args):
+                    bad.append(x)
+            ctx.check(not bad, rid, g, bad[0] if bad else "__get__",
+                      f"`{inst}` is only compared by identity" if not bad else
+                      f"`{norm(bad[0])}` tests the truth value / equality of the instance: a falsy instance is served the unbound descriptor",
+                      line=getattr(bad[0], "lineno", None) if bad else None)
